@@ -59,7 +59,7 @@ def cases(ctx):
                             base = codec.rand_values(rng, kinds)
                             yield {"kind": route, "flavour": flav, "mnemonic": m, "pos": list(pos), "value": v,
                                    "values": codec.set_leaf(base, pos, v), "expect": which}
-    for route in ("direct", "text"):
+    for route in ("direct", "text", "setter", "instantiate"):
         for which, apps, vers in (("out", [-1, -2, 65536, 65537, 70000, 2**31, 2**32, 2**32 + 1], [-1, 256, 257, 300, 65536]),
                                   ("in", [0, 1, 65535], [0, 1, 255])):
             for a in apps:
@@ -67,6 +67,8 @@ def cases(ctx):
                 if ctx.mine(k) and not (route == "text" and a < 0):
                     yield {"kind": route + "-header", "app_id": a, "version": [1, 0], "expect": which}
             for v in vers:
+                if route in ("setter", "instantiate"):
+                    break
                 for slot in (0, 1):
                     k += 1
                     if ctx.mine(k) and not (route == "text" and v < 0):
@@ -94,6 +96,8 @@ def cases(ctx):
         sdk.append({"kind": "sdk-appid", "app_id": a, "expect": "out"})
     for a in (0, 5, 65535):
         sdk.append({"kind": "sdk-appid", "app_id": a, "expect": "in"})
+    for a, e in ((65536, "out"), (70000, "out"), (7, "in")):
+        sdk.append({"kind": "sdk-appid-precompiled", "app_id": a, "expect": e})
     for c in sdk:
         k += 1
         if ctx.mine(k):
@@ -154,11 +158,21 @@ def run_case(ctx, case):
         _judge(ctx, case, produce, expected_instrs=want, flav=flav)
         ctx.case(case, nontrivial=out)
         return
-    if kind in ("direct-header", "text-header"):
+    if kind in ("direct-header", "text-header", "setter-header", "instantiate-header"):
         ins = [["set", [["R", 1], 5]]]
         if kind == "direct-header":
             def produce():
                 return bytes(codec.mk_subroutine("vanilla", case["version"], case["app_id"], ins))
+        elif kind == "setter-header":
+            def produce():
+                sub = codec.mk_subroutine("vanilla", case["version"], 0, ins)
+                sub.app_id = case["app_id"]  # the app id is often only known after construction
+                return bytes(sub)
+        elif kind == "instantiate-header":
+            def produce():
+                sub = codec.mk_subroutine("vanilla", case["version"], None, ins)
+                sub.instantiate(case["app_id"], {})  # what the SDK does before committing
+                return bytes(sub)
         else:
             text = f"# NETQASM {case['version'][0]}.{case['version'][1]}\n# APPID {case['app_id']}\nset R1 5"
 
@@ -212,7 +226,7 @@ def run_case(ctx, case):
             with conn.loop(case["stop"]):
                 a.get_future_index(0).add(1)
         sdk(prog, lambda descr, subs: any(d[0] == "set" and d[1][1] == case["stop"] for d in descr), )
-    elif kind == "sdk-appid":
+    elif kind in ("sdk-appid", "sdk-appid-precompiled"):
         from vf.harness import controller as hc
 
         def run():
@@ -223,6 +237,10 @@ def run_case(ctx, case):
             with conn:
                 q = Qubit(conn)
                 q.X()
+                if kind == "sdk-appid-precompiled":
+                    sub = conn.compile()
+                    sub.instantiate(conn.app_id, {})
+                    conn.commit_subroutine(sub)
             return conn.subroutines
         try:
             subs = run()
